@@ -682,7 +682,10 @@ def judge(rep: Report, prop: str, traces, slimmed, verdicts, n_replay: int):
             rep.traces += 1
         rep.steps += v["judged"]
         sig = sig_of(tr)
-        if any((k != "bar" and k != "get_open_orders") for k, _, _ in sig):
+        last_obs = tr["steps"][-1]["obs"] if tr["steps"] else {"orders": [], "loans": []}
+        nontrivial = (any(not s["ok"] for s in tr["steps"]) or any(o["filled"] > 0 for o in last_obs["orders"])
+                      or len(last_obs["loans"]) > 0)
+        if nontrivial:
             rep.distinct(hash(sig))
         if not v["viol"]:
             continue
